@@ -268,6 +268,64 @@ Theorem c05_cache_population : forall sha1 sha256 b64 first_name ctl_view gunzip
 Proof. exact expand_uncached_keeps_cache_ok. Qed.
 Print Assumptions c05_cache_population.
 
+(* ---- wave 3 ------------------------------------------------------------------------------------
+   (7) the datahash of a control section, for EVERY .PKGINFO text: controlValue reads the
+   whole entry and every line of it, however long — for a text made of the lines [ls] the
+   values are those of every line of the form key=value, in the order of the lines (not the
+   first, not the last: verifyExpanded holds the data section to EVERY non-empty one,
+   cachedPackage wants exactly one), so a datahash line is found wherever it stands and
+   whatever precedes it. *)
+Theorem c05_datahash_of_every_line : forall key ls,
+  ls <> [] -> (forall l, In l ls -> no_char "010"%char l) ->
+  control_values (join_with "010"%char ls) key = List.flat_map (line_value key) ls.
+Proof. exact control_values_lines. Qed.
+Print Assumptions c05_datahash_of_every_line.
+
+Theorem c05_datahash_line_is_found : forall key ls l v,
+  ls <> [] -> (forall l, In l ls -> no_char "010"%char l) ->
+  In l ls -> line_value key l = [v] -> In v (control_values (join_with "010"%char ls) key).
+Proof. exact control_values_finds. Qed.
+Print Assumptions c05_datahash_line_is_found.
+
+(* (8) where fetched bytes come from: the origin, or — for an http(s) URL with a cache —
+   the whole .apk found under the URL-derived name in the cache directory, which wins over
+   the origin; OFFLINE the origin is never asked. Nothing on that path looks at the bytes:
+   they reach expandPackage as [served], which c05_chain / c05_end_to_end quantify over, so
+   both hold verbatim for [served := fetch http has_cache offline whole origin] — the
+   offline build from a pre-populated cache directory is verified like any download. *)
+Theorem c05_fetch_sources : forall http has_cache offline whole origin,
+  (forall s, fetch http has_cache offline whole origin = Some s ->
+     whole = Some s \/ (origin = Some s /\ (http && has_cache && offline = false))) /\
+  fetch true true true whole origin = whole.
+Proof. intros. split; [intro s; apply fetch_sources | apply fetch_offline]. Qed.
+Print Assumptions c05_fetch_sources.
+
+(* (9) what is installed was hashed: under the chain, every file either install path writes
+   holds the body of a REGULAR entry of the data section that agrees with its recorded
+   checksum — entries of any other type (contiguous files, devices, fifos, unknown flags),
+   with or without a body and a record, are never written; this is the statement the
+   validator checks on observed installs (tag installed-bytes-never-hashed) *)
+Theorem c05_installed_was_hashed : forall sha1 sha256 b64 ctl_view gunzip untar h x lazy out,
+  Chain sha1 sha256 b64 ctl_view gunzip untar h x -> install lazy x = Some out -> Installed_hashed sha1 x out.
+Proof. exact chain_installed_hashed. Qed.
+Print Assumptions c05_installed_was_hashed.
+
+Theorem c05_installed_validator_decides : forall sha1 x out,
+  installed_hashed_b sha1 x out = true <-> Installed_hashed sha1 x out.
+Proof. exact installed_hashed_b_iff. Qed.
+Print Assumptions c05_installed_validator_decides.
+
+(* fixed finding C05-F4 (fix 950e586): a successful expansion — fetched with or without a
+   cache, warm hit with or without the uncompressed tar — holds no sparse entry: the tar
+   index, which serves the bytes at an entry's offset, refuses such an archive. (Before
+   the fix the lazy install wrote the stored fragments and what follows them — bytes
+   nothing had hashed — where checkSums and the streaming install saw the logical content.) *)
+Theorem c05_sparse_entries_refused : forall sha1 sha256 b64 first_name ctl_view gunzip untar k h served x k',
+  expand_uncached sha1 sha256 b64 first_name ctl_view gunzip untar k h served = (XOk x, k') ->
+  forall f, In f (d_files (x_dat x)) -> f_sparse f = false.
+Proof. exact expand_uncached_no_sparse. Qed.
+Print Assumptions c05_sparse_entries_refused.
+
 (* the boolean validator run on what the implementation installed decides
    exactly the readable chain *)
 Theorem c05_validator_decides : forall sha1 sha256 b64 ctl_view gunzip untar sfx h x,
@@ -280,15 +338,20 @@ Print Assumptions c05_validator_decides.
    control) / [9] (data member holding etc/f and a hard link to it) / [8] (same entries,
    the link retargeted) / [3] (signature member) *)
 Definition ex_first (r : list N) : option string := if bytes_eqb r [3]%N then Some ".SIGN.RSA.k" else Some ".PKGINFO".
-Definition ex_ctl (r : list N) : option (string * list string) :=
-  if bytes_eqb r [1]%N then Some ("d", ["09"]) else if bytes_eqb r [4]%N then Some ("nd", []) else Some ("other", ["09"]).
-Definition ex_file (n : string) (b : N) (sum : recsum) : dfile := {| f_name := n; f_kind := FReg; f_body := [b]; f_sum := sum; f_link := "" |}.
-Definition ex_link (n t : string) : dfile := {| f_name := n; f_kind := FLink; f_body := []; f_sum := SumNone; f_link := t |}.
+Definition nl : string := String "010" "".
+Definition ex_ctl (r : list N) : option (string * string) :=
+  if bytes_eqb r [1]%N then Some ("d", ("pkgname = p" ++ nl ++ "datahash = 09" ++ nl)%string)
+  else if bytes_eqb r [4]%N then Some ("nd", ("pkgname = p" ++ nl)%string)
+  else Some ("other", "datahash=09").
+Definition ex_file (n : string) (b : N) (sum : recsum) : dfile := {| f_name := n; f_kind := FReg; f_body := [b]; f_sum := sum; f_link := ""; f_sparse := false |}.
+Definition ex_link (n t : string) : dfile := {| f_name := n; f_kind := FLink; f_body := []; f_sum := SumNone; f_link := t; f_sparse := false |}.
 Definition ex_untar (t : list N) : option (list dfile) :=
   if bytes_eqb t [9]%N || bytes_eqb t [9; 9]%N   (* entries after the end-of-archive marker are never read *)
   then Some [ex_file "etc/f" 7 (SumSome [7]%N); ex_file "etc/g" 6 (SumSome [6]%N); ex_link "etc/l" "etc/f"]
   else if bytes_eqb t [8]%N then Some [ex_file "etc/f" 7 (SumSome [7]%N); ex_file "etc/g" 6 (SumSome [6]%N); ex_link "etc/l" "etc/g"]
   else if bytes_eqb t [5]%N then Some [ex_file "etc/f" 7 (SumSome [6]%N)]
+  else if bytes_eqb t [7]%N   (* a sparse regular file: its logical content agrees with its record *)
+  then Some [{| f_name := "etc/s"; f_kind := FReg; f_body := [7]%N; f_sum := SumSome [7]%N; f_link := ""; f_sparse := true |}]
   else None.
 Notation ex_expand_package := (expand_package idf idf wit_b64 ex_first ex_ctl wit_gunzip ex_untar).
 Definition ex_h : handle := {| h_url := "u"; h_chk := "Q11" |}.
@@ -313,6 +376,9 @@ Example c05_substitutions_refused :
   fst (expand_uncached idf idf wit_b64 ex_first ex_ctl wit_gunzip ex_untar None ex_h (Some (ex_apk true 2 9))) = XErr EVerify /\   (* other control *)
   fst (expand_uncached idf idf wit_b64 ex_first ex_ctl wit_gunzip ex_untar None ex_h (Some (ex_apk true 1 8))) = XErr EVerify /\   (* other data: the datahash disagrees *)
   fst (expand_uncached idf idf wit_b64 ex_first ex_ctl wit_gunzip ex_untar None ex_h (Some (ex_apk true 1 5))) = XErr ESums /\     (* per-file checksum *)
+  fst (expand_uncached idf idf (fun s => if String.eqb s "7" then Some [7]%N else wit_b64 s) ex_first
+         (fun r => if bytes_eqb r [7]%N then Some ("s", "datahash = 07") else ex_ctl r) wit_gunzip ex_untar None
+         {| h_url := "u"; h_chk := "7" |} (Some (ex_apk false 7 7))) = XErr EExpand /\                                               (* a sparse entry: the tar index refuses *)
   fst (expand_uncached idf idf wit_b64 ex_first ex_ctl wit_gunzip ex_untar None ex_h
          (Some {| s_members := [[3]; [1]; [9]]%N; s_trail := [0]%N |})) = XErr EExpand /\                                          (* bytes after the data member *)
   fst (expand_uncached idf idf wit_b64 ex_first ex_ctl wit_gunzip ex_untar None ex_h
